@@ -35,6 +35,12 @@ type descriptor struct {
 	Noise    int            `json:"noise"`   // goroutines delivering non-matching events
 	Perturb  uint64         `json:"perturb"`
 	DeclSeed int            `json:"declSeed"`
+	// StaleJoin > 0: the document's <incoming> list of the StaleJoin-th
+	// parallel join (with >= 2 incoming flows) names flows that do not lead to
+	// it (as many as really do): the engine then counts every arriving token
+	// for the incoming flow that holds fewest - and all answers of a step are
+	// given at the same moment
+	StaleJoin int `json:"staleJoin,omitempty"`
 }
 
 func stripResults(b *gen.Block) {
@@ -54,6 +60,26 @@ func stripResults(b *gen.Block) {
 func graphOf(d descriptor) *gen.Graph {
 	lw := gen.Lower(d.Prog)
 	g := lw.G
+	if d.StaleJoin > 0 {
+		k := 0
+		g.AllNodes(func(n *gen.Node, sg *gen.Graph) {
+			if n.Kind == gen.KPar && len(n.In) >= 2 {
+				k++
+				if k == d.StaleJoin {
+					// (the listed flows must exist: flows of the same scope that lead elsewhere)
+					var other []string
+					for _, f := range sg.Flows {
+						if f.Dst != n.ID && len(other) < len(n.In) {
+							other = append(other, f.ID)
+						}
+					}
+					if len(other) == len(n.In) {
+						n.InDoc = other
+					}
+				}
+			}
+		})
+	}
 	if !d.Catch {
 		return g
 	}
@@ -324,7 +350,8 @@ func TestC17Concurrent(t *testing.T) {
 		d := descriptor{Prog: blk, Vars: map[string]any{}, Catch: rapid.Bool().Draw(rt, "catch"),
 			Readers: rapid.IntRange(1, 4).Draw(rt, "readers"), Subs: rapid.IntRange(0, 3).Draw(rt, "subs"),
 			Waiters: rapid.IntRange(0, 3).Draw(rt, "waiters"), Noise: rapid.IntRange(0, 3).Draw(rt, "noise"),
-			Perturb: uint64(rapid.IntRange(0, 300).Draw(rt, "perturb")), DeclSeed: rapid.IntRange(0, 50).Draw(rt, "declSeed")}
+			Perturb: uint64(rapid.IntRange(0, 300).Draw(rt, "perturb")), DeclSeed: rapid.IntRange(0, 50).Draw(rt, "declSeed"),
+			StaleJoin: rapid.SampledFrom([]int{0, 0, 0, 1, 1, 2}).Draw(rt, "staleJoin")}
 		for _, v := range gen.IntVars {
 			d.Vars[v] = int64(rapid.IntRange(0, 3).Draw(rt, v))
 		}
